@@ -190,6 +190,9 @@ class Trajectories:
                     viol.setdefault("frame", {"obligation": f"{self.name}::configured-rates-untouched-by-a-run", "bounded": self.name, "witness": {"rates_after_the_run": [cr.alpha, cr.beta, cr.gamma]}})
             except Exception as e:
                 viol.setdefault("nan", {"obligation": f"{self.name}::regressed-rates-are-finite", "bounded": self.name, "witness": {"exception": f"{type(e).__name__}: {e}"}})
+        # the stopping test accepts on early estimates (while sizes are still growing) and rejects on the final ones
+        hist["accepted-early-rejected-on-the-final-estimates"] = dict(initial_level=2, maximum_level=4, initial_mc_paths=10,
+                                                                        plans=(([10, 10, 30], True), ([10, 10, 30], False), ([10, 10, 30, 5], False), ([10, 10, 30, 5], False), ([10, 10, 30, 5, 5], False), ([10, 10, 30, 5, 5], False)))
         hist["initial-level-above-the-maximum"] = dict(initial_level=3, maximum_level=2, initial_mc_paths=3, plans=(([3], True), ([3], True)))
         for hname, kw in hist.items():
             ev += 1
@@ -204,7 +207,10 @@ class Trajectories:
             levels = len(stats.mc_statistics)
             max_level = kw["maximum_level"]
             crit = [e for e in script.log if e[0] == "criteria"]
-            accepted = bool(crit and crit[-1][2])
+            # the verdict that counts is the one of a stopping test evaluated AFTER the last size update
+            kinds = [e[0] for e in script.log if e[0] in ("criteria", "Ns")]
+            tested_last = bool(kinds) and kinds[-1] == "criteria"
+            accepted = bool(crit and crit[-1][2]) and tested_last
             last_ns = [e for e in script.log if e[0] == "Ns"][-1][2]
             Nl = [int(x) for x in stats.mlmc_results.Nl]
             info = {"history": hname, "levels_simulated": levels, "maximum_level": max_level, "stopping_test_accepted_last": accepted, "N_l": Nl, "last_optimal_sizes": last_ns}
@@ -213,7 +219,7 @@ class Trajectories:
             if levels - 1 > max_level:
                 viol.setdefault("max", {"obligation": f"{self.name}::never-above-the-maximum-level", "bounded": self.name, "witness": info})
             if not accepted and levels - 1 < max_level:
-                viol.setdefault("ret", {"obligation": f"{self.name}::returns-only-on-acceptance-or-at-the-maximum-level", "bounded": self.name, "witness": info})
+                viol.setdefault(("ret", hname), {"obligation": f"{self.name}::returns-only-on-acceptance-or-at-the-maximum-level[{hname}]", "bounded": self.name, "witness": info})
             if accepted and any(ns - n > 0.01 * n for ns, n in zip(last_ns, Nl)):
                 viol.setdefault("opt", {"obligation": f"{self.name}::every-level-has-its-optimal-size-within-1-percent", "bounded": self.name, "witness": info})
         return {"name": self.name, "evaluations": ev, "distinct_nontrivial": ev, "violations": list(viol.values()), "samples": samples,
